@@ -200,7 +200,12 @@ def _gen_base(rng):
         kinds[callee] = "csvc"
     # 30 % "names" graphs: many task.unique steps over 3 names (tasks holding several names, take-overs, exits)
     names_mode = rng.random() < 0.3
-    ncb = rng.choice([1, 2, 2, 3, 3, 4])
+    # 30 % "callback" graphs: add/remove_done_callback steps dominate, over 1-2 callbacks and 1-2 target tasks, so that
+    # every short history of add / remove / re-add of one callback on one task occurs before the task ends
+    cb_mode = (not names_mode) and rng.random() < 0.43
+    ncb = rng.choice([1, 2, 2]) if cb_mode else rng.choice([1, 2, 2, 3, 3, 4])
+    cb_targets_only = rng.sample(range(n), min(n, rng.choice([1, 1, 2]))) if cb_mode else None
+    nexec = 0
     cbs = []
     for _j in range(ncb):
         cbs.append({"sleep": 1 if rng.random() < 0.35 else 0, "raise": rng.random() < 0.2})
@@ -219,6 +224,20 @@ def _gen_base(rng):
             r = rng.random()
             if names_mode and r < 0.45 and not (after_wait and not relaxed):
                 steps.append(["claim", rng.randrange(3)])
+                continue
+            if cb_mode and r < 0.5 and not (after_wait and not relaxed):
+                j = rng.randrange(ncb)
+                x = cb_target[j] if cbs[j]["sleep"] else rng.choice(cb_targets_only)
+                if rng.random() < 0.6:
+                    if adds_on[x] < 5:
+                        adds_on[x] += 1
+                        steps.append(["add", x, j, rng.randrange(1, 50)])
+                else:
+                    steps.append(["rem", x, j])
+                continue
+            if r > 0.97 and nexec < 2 and not (after_wait and not relaxed):
+                nexec += 1
+                steps.append(["exec", 0])
                 continue
             if after_wait and not relaxed:
                 steps.append(["sleep", 0])
@@ -324,7 +343,12 @@ def _gen_base(rng):
             tasks.append({"kind": "shut", "at": None, "steps": st})
             kinds.append("shut")
     # allocate distinct power-of-two durations
-    need = sum(1 for t in tasks for s in t["steps"] if s[0] == "sleep") + sum(1 for cb in cbs if cb["sleep"]) + sum(
+    # 25 % of the graphs without suspending callbacks and without a shutdown file: the pyscript config entry and / or the
+    # script file is reloaded while runs are in flight (runs survive a reload; nothing about them may change)
+    ops = []
+    if not any(cb["sleep"] for cb in cbs) and "shut" not in kinds and rng.random() < 0.5:
+        ops = [[rng.choice(["reload_entry", "reload_entry", "reload_file"]), 0] for _ in range(rng.choice([1, 1, 2]))]
+    need = len(ops) + sum(1 for t in tasks for s in t["steps"] if s[0] in ("sleep", "exec")) + sum(1 for cb in cbs if cb["sleep"]) + sum(
         1 for t in tasks if t["kind"] not in ("create", "csvc"))
     if need > len(bits) - 3:
         return None
@@ -341,22 +365,24 @@ def _gen_base(rng):
     for t in tasks:
         if t["kind"] not in ("create", "csvc"):
             t["at"] = 2 ** inj_bits.pop()
-        mine = [bits.pop() for s in t["steps"] if s[0] == "sleep"]
+        mine = [bits.pop() for s in t["steps"] if s[0] in ("sleep", "exec")]
         if ascending:
             mine.sort(reverse=True)          # popped from the end below: ascending along the program
         for s in t["steps"]:
-            if s[0] == "sleep":
+            if s[0] in ("sleep", "exec"):
                 s[1] = 2 ** mine.pop()
     for cb in cbs:
         if cb["sleep"]:
             cb["sleep"] = 2 ** bits.pop()
+    for o in ops:
+        o[1] = 2 ** bits.pop()
     case = {"sub": rng.choice(["legacy", "dm"]), "horizon": HORIZON, "cbform": rng.choice(["func", "method"]), "tasks": tasks, "cbs": cbs,
-            "faults": []}
+            "ops": ops, "faults": []}
     # suspension points: (task, ["step", k], duration or None) and (task, ["cb", j], duration)
     points = []
     for i, t in enumerate(tasks):
         for k, s in enumerate(t["steps"]):
-            if s[0] == "sleep":
+            if s[0] in ("sleep", "exec"):
                 points.append((i, ["step", k], s[1]))
             elif s[0] in ("wait", "call"):
                 points.append((i, ["step", k], None))
@@ -436,6 +462,23 @@ FIXED += [
 
 
 FIXED += [
+    # callback histories on one task: add, remove, re-add (C14-9 style), ending by return / raise / cancel
+    {"tasks": [{"kind": "ev", "at": 2 ** 10, "steps": [["sleep", 2 ** 12], ["add", 0, 0, 1], ["add", 0, 1, 2], ["rem", 0, 0], ["add", 0, 0, 3],
+                                                        ["add", 0, 2, 4], ["rem", 0, 2], ["sleep", 2 ** 13], ["ret", 3]]}],
+     "cbs": [{"sleep": 0, "raise": False}, {"sleep": 0, "raise": False}, {"sleep": 0, "raise": False}], "faults": []},
+    {"tasks": [{"kind": "svc", "at": 2 ** 10, "steps": [["sleep", 2 ** 12], ["rem", 0, 0], ["add", 0, 0, 1], ["rem", 0, 0], ["add", 0, 0, 2], ["raise"]]},
+               {"kind": "st", "at": 2 ** 11, "steps": [["sleep", 2 ** 9], ["add", 1, 0, 5], ["rem", 1, 0], ["add", 1, 0, 6], ["sleep", 2 ** 14], ["ret", 1]]}],
+     "cbs": [{"sleep": 0, "raise": False}], "faults": [{"task": 1, "pt": ["step", 4], "off": 5}]},
+    # a run cancelled inside task.executor while its thread is busy, a second cancellation right behind it (C14-7 style)
+    {"tasks": [{"kind": "ev", "at": 2 ** 10, "steps": [["sleep", 2 ** 12], ["claim", 0], ["add", 0, 0, 1], ["exec", 2 ** 16], ["ret", 3]]},
+               {"kind": "st", "at": 2 ** 11, "steps": [["sleep", 2 ** 17], ["ret", 1]]},
+               {"kind": "svc", "at": 2 ** 9, "steps": [["sleep", 2 ** 14], ["cancel", 0], ["cancel", 1], ["sleep", 2 ** 13], ["claim", 0], ["ret", 2]]}],
+     "cbs": [{"sleep": 0, "raise": False}], "faults": []},
+    # the config entry, then the script file, is reloaded while runs are in flight (C14-8 style)
+    {"tasks": [{"kind": "ev", "at": 2 ** 10, "steps": [["sleep", 2 ** 12], ["claim", 0], ["add", 0, 0, 1], ["sleep", 2 ** 16], ["ret", 3]]},
+               {"kind": "svc", "at": 2 ** 15, "steps": [["sleep", 2 ** 11], ["add", 0, 0, 2], ["claim", 0], ["sleep", 2 ** 17], ["ret", 1]]},
+               {"kind": "st", "at": 2 ** 18, "steps": [["sleep", 2 ** 9], ["cancel", 1], ["wait", 1], ["ret", 2]]}],
+     "cbs": [{"sleep": 0, "raise": False}], "ops": [["reload_entry", 2 ** 14], ["reload_file", 2 ** 8 + 2 ** 17]], "faults": []},
     # a task holding two unique names loses one to another task and exits: both names must be forgotten (C14-4 style);
     # the taker re-claims a name it holds
     {"tasks": [{"kind": "ev", "at": 2 ** 10, "steps": [["sleep", 2 ** 12], ["claim", 0], ["claim", 1], ["claim", 2], ["sleep", 2 ** 16], ["ret", 1]]},
@@ -467,7 +510,7 @@ def _names(case):
 
 def _q_step(s, name_off=0):
     op = s[0]
-    if op == "sleep":
+    if op in ("sleep", "exec"):        # task.executor of a function that is busy for d ticks: a suspension of d ticks for the Model
         return f"SSleep {q.N(s[1])}"
     if op == "add":
         return f"SAdd {q.N(s[1])} {q.N(s[2])} {q.N(s[3])}"
@@ -540,7 +583,7 @@ class GraphStream(Stream):
             "raise point; 30 % of the graphs are dense in task.unique steps over 3 names (several names per task, take-overs, exits); in 40 % "
             "two or three tasks are overlapping runs of ONE function (event trigger / service / task.create target, told apart by an "
             "argument; every event carries the run's local variable, which must be its own); 20 % have an extra run of a "
-            "@time_trigger('shutdown') function started by reloading its file; 13 fixed graphs x 2 subsystems; legacy and default subsystem chosen per graph; the script reports "
+            "@time_trigger('shutdown') function started by reloading its file; 17 fixed graphs x 2 subsystems; 30 % of the graphs are dense in add/remove_done_callback steps over 1-2 callbacks and 1-2 targets (all short add/remove/re-add histories); task.executor steps whose worker thread is busy for a virtual duration (a suspension point like sleep); 25 % of the graphs without suspending callbacks reload the config entry and/or the script file while runs are in flight; legacy and default subsystem chosen per graph; the script reports "
             "through event.fire, the listener records virtual time, the running task and a registry snapshot per event; "
             "non-trivial = at least 2 tasks or a fault or a callback; distinct by the whole case")
     requires = "From PV Require Import Task.Lifecycle Task.LifecycleCheck."
